@@ -163,7 +163,13 @@ impl<'a> SendBlocksProofProcess<'a> {
             ));
 
             // Get blocks
-            if original_request.should_get_blocks() {
+            //
+            // The matched blocks are proved against the stored tip: a response for a request which
+            // was sent before the tip was replaced (by a fork) proves nothing for the current
+            // matched blocks, they are requested again.
+            let is_tip_unchanged = self.protocol.storage().get_tip_header().calc_header_hash()
+                == original_request.last_hash();
+            if original_request.should_get_blocks() && is_tip_unchanged {
                 let block_hashes: Vec<packed::Byte32> =
                     headers.iter().map(|header| header.hash()).collect();
                 {
